@@ -19,7 +19,7 @@ RULE = (
     "(digits, signs, . , e E _ n a i f blank tab newline NUL, Arabic-Indic and full-width digits, / :) placed at "
     "column 0 and inside a 2-character margin whose content varies (locality twins); random longer lines; bytes: all "
     "65536 two-byte payloads for 2-byte ints and floats, sampled 4/8-byte payloads, every truncation length, invalid "
-    "UTF-8 families; failing reads interleaved with succeeding ones (no stale value). Independently the model's "
+    "UTF-8 families; failing reads interleaved with succeeding ones (no stale value), three lines in ten of a random sequence repeat an earlier line of it. Independently the model's "
     "expectation is compared with CPython's own int()/float()/strptime()/strip()/struct on the same span (model "
     "validation). non-trivial = the span is not empty; distinct by full case."
 )
@@ -214,6 +214,11 @@ def random_text_case(rng, fd_pool):
         fd["size"] = rng.randrange(4, 14)
     lines = []
     for _ in range(rng.randrange(1, 12)):
+        if lines and rng.random() < 0.3:
+            # the same line again, later in the sequence (after other reads, failed reads and the writes
+            # that run_impl interleaves): the same span must read the same
+            lines.append(rng.choice(lines))
+            continue
         r = rng.random()
         if r < 0.6:
             span = rng.choice(TOKENS)
